@@ -15,6 +15,7 @@ LEVEL_TEXT = ("Who-may-write and shape analysis on the MIR: (E5) GraphNode.outgo
               "result is used as 'the edge' or only acted upon when new; no graph is cleared/truncated/recreated on the execute_into paths.")
 LEVEL_NOTE = ("Not decided: the value-level statements over all histories (that at most one edge per pair is ever *observed*, equal value "
               "accepted / different rejected as observed); the check establishes the invariants of the only mutators.")
+LEVEL_TEXT += (' Results returned by closures (e.g. per-attribute results inside an iterator chain) are consumed only by error-keeping adaptors — `last`, `flat_map`, `for_each` and the like are violations; (E5.keep) attribute lists and deferred statements are never de-duplicated, filtered or reordered.')
 
 
 def run(prog, rep):
